@@ -67,7 +67,7 @@ COMPONENTS = {
 }
 
 ASSUMPTIONS = [
-    'interleavings are sequentially consistent at the granularity of instrumented memory accesses; weaker-memory failures are not explored',
+    'interleavings are sequentially consistent at the granularity of instrumented memory accesses; x86-TSO store buffering is explored in the thread-mode data-structure harnesses only (C02 deque, C13-C18, C20), nothing weaker anywhere',
     'fair scheduler: a runnable kernel thread runs within 2000 scheduling points (assumption of all liveness verdicts)',
     'the simulated kernel is a faithful model of the Linux calls libfiber uses (DESIGN.md B.1)',
     'sampling, not enumeration: a clean batch is evidence, not proof',
